@@ -53,6 +53,8 @@ CANON = ("t1.jsonl", "t2.jsonl", "t4.jsonl", "apply.jsonl", "turn.jsonl")
 
 REGISTRY: Dict[str, Any] = {
     "boot_load": ("clematis.engine.orchestrator.core", "load_latest_snapshot"),
+    "gel_observe": ("clematis.engine.orchestrator.core", "gel_observe"),
+    "gel_tick": ("clematis.engine.orchestrator.core", "gel_tick"),
     "gel_merge_candidates": ("clematis.engine.orchestrator.core", "gel_merge_candidates"),
     "gel_apply_merge": ("clematis.engine.orchestrator.core", "gel_apply_merge"),
     "gel_split_candidates": ("clematis.engine.orchestrator.core", "gel_split_candidates"),
@@ -270,7 +272,9 @@ def _run(program: Dict[str, Any], faulty: bool) -> Dict[str, Any]:
                 return res
 
             core.load_latest_snapshot = loader_spy
-            spec = [f for f in faults if f["site"] in REGISTRY] if faulty else []
+            # observation and decay have no switch of their own: their twin is the same call doing nothing
+            spec = [f for f in faults if f["site"] in REGISTRY] if faulty else \
+                [dict(f, idle=True) for f in faults if f["site"] in ("gel_observe", "gel_tick")]
             try:
                 with Sites(REGISTRY, spec) as sites:
                     for op in program["ops"]:
